@@ -520,7 +520,7 @@ func concRound(r *ev.Run, seed int64, prof profile) bool {
 }
 
 func concPhase(r *ev.Run, rng *rand.Rand) bool {
-	rounds := r.Pick(16, 40)
+	rounds := r.Pick(16, 30)
 	for i := 0; i < rounds; i++ {
 		prof := profile{Name: "concurrent", Keys: 14 + rng.Intn(18), MaxID: 60, Ops: 40 + rng.Intn(40), Prefill: true,
 			Stores: 3 + rng.Intn(6), Density: 0.7, NearEach: 1, FullEach: 1 << 30, CompleteEach: 1 << 30}
